@@ -116,6 +116,10 @@ class GridFlow(WidgetWrap[Pile], WidgetContainerMixin, WidgetContainerListConten
     def __len__(self) -> int:
         return len(self._contents)
 
+    def selectable(self) -> bool:
+        """Selectable exactly when one of the cells is, also before the grid has been laid out again."""
+        return any(w.selectable() for w, _options in self.contents)
+
     def _invalidate(self) -> None:
         self._cache_maxcol = None
         super()._invalidate()
